@@ -73,6 +73,41 @@ if spec.get('run'):
 '''
 
 
+API_SESSION = r'''
+import json, os, sys
+sys.path.insert(0, os.environ['VERIF_REPO']); sys.path.insert(1, os.environ['FJVERIF_ROOT'])
+from fjverif import common, native_build
+common.use_repo_tree(); native_build.register('opt')
+from pathlib import Path
+import contextlib, io
+import flipjump
+from flipjump.fjm.fjm_consts import FJMVersion
+# ONE process, several API calls one after another (what a program that uses the library does): every call must give what a
+# fresh `fj` process gives for the same sources and options, whatever was assembled - or failed to assemble - before it.
+for spec in json.loads(sys.argv[1]):
+    kw = {}
+    if spec.get('width') is not None: kw['memory_width'] = spec['width']
+    if spec.get('version') is not None: kw['fjm_version'] = FJMVersion(spec['version'])
+    if spec.get('no_stl'): kw['use_stl'] = False
+    try:
+        with contextlib.redirect_stdout(io.StringIO()):
+            flipjump.assemble([Path(p) for p in spec['files']], Path(spec['out']), warning_as_errors=bool(spec.get('werror')),
+                              print_time=False, **kw)
+        res = {'ok': True}
+    except flipjump.FlipJumpException as exc:
+        res = {'ok': False, 'error': type(exc).__name__ + ': ' + str(exc)[:200]}
+    except BaseException as exc:
+        res = {'ok': False, 'error': 'RAW ' + type(exc).__name__ + ': ' + str(exc)[:200]}
+    sys.stderr.write('FJVERIF-SESSION ' + json.dumps(res) + '\n')
+'''
+
+SESSION_FAILURES = [
+    'ns q {\n  def m {\n    ;\n  }\n  ;1 +\n}\n', 'ns a {\nns b {\n;`\n}\n}\n', 'ns outer {\n  x:\n  ;nolabel\n', 'ns z {\n ;\n',
+    'ns c {\n  K = 1/0\n  ;K\n}\n', 'def d {\n  d\n}\n;\nd\n', ';\n;undeclared_label_xyz\n', 'def m a {\n ;a\n}\n;\nm\n',
+    'ns p {\n  def f {\n    ..nope\n  }\n}\n;\np.f\n', ';\nrep(2, i) nothing i\n', 'x:\nx:\n;\n',
+]
+
+
 def plan(tier: str, seed: int) -> List[Dict[str, Any]]:
     quick = tier == 'quick'
     n = 8 if quick else 16
@@ -171,6 +206,85 @@ class Judge:
     def api(self, spec: Dict[str, Any], cwd: Path, stdin: Optional[bytes] = None) -> Tuple[int, bytes, bytes]:
         self.count('api_processes')
         return run_proc([PYTHON, '-c', API_CHILD, json.dumps(spec)], self.env, cwd, stdin)
+
+    def session(self, rng: Any, programs: List[Dict[str, Any]]) -> None:
+        """route C used as a library: several assemblies (good ones, failing ones, the same one again and again, the standard
+        library given explicitly with --no_stl) in one process, each compared with a fresh `fj --asm -o` process."""
+        d = self.workdir / f'session{self.counters.get("sessions", 0)}'
+        d.mkdir(parents=True)
+        self.count('sessions')
+        stl_dir = REPO_ROOT / 'flipjump' / 'stl'
+        items: List[Dict[str, Any]] = []
+
+        def small_runlib_program(index: int) -> Dict[str, Any]:
+            body = ''.join(f'stl.output_bit {rng.getrandbits(1)}\n' for _ in range(rng.randrange(1, 9)))
+            name = rng.choice(['', 'A', 'B'])
+            text = f'stl.startup\n{name + ":" if name else ""}\n{body}stl.loop\n' if name else f'stl.startup\n{body}stl.loop\n'
+            path = d / f'runlib_user{index}.fj'
+            path.write_text(text)
+            return {'name': 'runlib-explicit', 'files': [str(stl_dir / 'runlib.fj'), str(path)], 'width': 64, 'no_stl': True}
+
+        shape = rng.choice(['mixed', 'mixed', 'explicit-stl', 'repeat'])
+        n = rng.choice([3, 4, 5, 6])
+        for index in range(n):
+            r = rng.random()
+            if shape == 'explicit-stl' or (shape == 'mixed' and r < 0.25):
+                item = small_runlib_program(index)
+            elif shape == 'repeat' and items and r < 0.7:
+                item = dict(items[0])
+            elif r < 0.5:
+                text = rng.choice(SESSION_FAILURES)
+                path = d / f'fail{index}.fj'
+                path.write_text(text)
+                stl = rng.random() < 0.4
+                item = {'name': 'failing', 'files': [str(path)], 'width': 64 if stl else rng.choice([16, 32, 64]), 'no_stl': not stl}
+            else:
+                src = rng.choice(programs)
+                item = {'name': src['name'], 'files': src['files'], 'width': src['width'], 'no_stl': not src['stl']}
+            item = dict(item, version=rng.choice([None, 1, 3]), werror=rng.random() < 0.3, out=str(d / f'api{index}.fjm'))
+            items.append(item)
+        self.journal.note({'session': items})
+        rc, so, se = self.api_session(items, d)
+        results = [json.loads(line[len('FJVERIF-SESSION '):]) for line in se.decode('latin-1').splitlines() if line.startswith('FJVERIF-SESSION ')]
+        if len(results) != len(items):
+            self.count('sessions_incomplete')
+            self.counters.setdefault('session_errors', [])
+            if len(self.counters['session_errors']) < 3:
+                self.counters['session_errors'].append(se.decode('latin-1')[-300:])
+            shutil.rmtree(d, ignore_errors=True)
+            return
+        for index, (item, res) in enumerate(zip(items, results)):
+            args = ['--asm', '-s', '-o', str(d / f'cli{index}.fjm'), '-w', str(item['width'])]
+            if item['version'] is not None:
+                args += ['-v', str(item['version'])]
+            if item['no_stl']:
+                args += ['--no_stl']
+            if item['werror']:
+                args += ['--werror']
+            rc_b, so_b, se_b = self.cli(args + list(item['files']), d)
+            cli_ok = rc_b == 0 and (d / f'cli{index}.fjm').exists()
+            self.count('monitor_evaluations')
+            self.count('session_steps')
+            case = {'session': [{k: v for k, v in it.items() if k != 'out'} for it in items[:index + 1]], 'step': index}
+            history = [it['name'] for it in items[:index]]
+            if cli_ok != res['ok']:
+                self.bad('api-session/accepts-differently-from-fresh-fj', f'step {index} ({item["name"]}) after {history}: fj '
+                         f'{"assembled" if cli_ok else "failed"}, API in the same process {"assembled" if res["ok"] else "failed: " + res.get("error", "")}', case)
+            elif cli_ok:
+                if Path(item['out']).read_bytes() != (d / f'cli{index}.fjm').read_bytes():
+                    self.bad('api-session/fjm-bytes-differ-from-fresh-fj', f'step {index} ({item["name"]}) after {history}: bytes differ', case)
+                else:
+                    self.count('session_files_compared')
+            else:
+                self.count('session_failures_agreed')
+                if res.get('error', '').startswith('RAW'):
+                    self.bad('api-session/raw-exception', f'step {index} ({item["name"]}): {res["error"]}', case)
+        self.hashes.append(case_hash([[it['name'], it['files'], it['version']] for it in items]))
+        shutil.rmtree(d, ignore_errors=True)
+
+    def api_session(self, items: List[Dict[str, Any]], cwd: Path) -> Tuple[int, bytes, bytes]:
+        self.count('api_processes')
+        return run_proc([PYTHON, '-c', API_SESSION, json.dumps(items)], self.env, cwd, None)
 
     def one_case(self, rng: Any, program: Dict[str, Any], runnable: bool) -> None:
         d = self.workdir / f'case{self.counters.get("cases", 0)}'
@@ -312,6 +426,9 @@ def run_shard(spec: Dict[str, Any], journal: Any) -> Dict[str, Any]:
     rng.shuffle(mine)
     for program in mine[:spec['cases']]:
         judge.one_case(rng, program, runnable=True)
+    small = [p for p in programs if any(k in p['name'] for k in ('hello', 'cat', 'simple', 'testbit', 'rep', 'func1', 'print_as'))] or programs
+    for _ in range(3 if spec['cases'] <= 5 else spec['cases'] // 3):
+        judge.session(rng, small)
     # generated primitive programs (bytes only - they are not meant to be run)
     for index in range(max(2, spec['cases'] // 2)):
         prog = primgen.generate(rng, flaws=False)
